@@ -39,7 +39,7 @@ CLAIMED = {
          "Trusted: as C04. Name-change notifications, channel overflow and liveness (eventual delivery) are outside the claim.",
          "DESIGN.md §4 C04-C06", "inductive step by bounded symbolic execution: notification contract asserted on the drained channel"),
  "C10": ("Bounded model checking of a provenance invariant: the packet buffer is a tagged object; after each step of the C04 harness family (Parse, Notify, DHCPv4Update) everything reachable from the session, and separately the NDP option structure and the DNS entry built by the decoders (what the ICMPv6 and naming handlers store), is walked and must not reference the tagged buffer. Exact per path; implies that scribbling over the buffer cannot change retained state.",
-         "Trusted: go/ssa, gse semantics, z3. The handlers' own tables (DHCP leases, router table, mDNS cache) are covered only through the decoder results they store; SSDP/UPnP excluded.",
+         "Trusted: go/ssa, gse semantics, z3. The handlers' retained state is walked too: ICMPv6 router table after every RA of the C14 harness, the naming handler's DNS table and the entries ProcessDNS / ProcessMDNS return, the DHCP lease table and the session after every message of the C11 step harness. SSDP/UPnP excluded.",
          "DESIGN.md §4 C10", "bounded symbolic execution with a heap provenance walk on every path"),
  "C09": ("Bounded-schedule symbolic execution (thread mode of gse) of the real Session code: two (thorough: also three) goroutines each run one operation of the supported pattern - the packet loop (Parse+Notify), purge, FindIP/GetHosts with row read locks, FindByMAC, FindMACEntry, Capture, Release, IsCaptured, IPAddrs, DHCP offer accessors, PrintTable, DHCPv4Update, Host.UpdateMDNSName, Close - from a table with symbolic online flags and ages. Context switches before every acquiring / blocking synchronisation operation within a preemption bound (quick 0, thorough 1); every heap access checked against a vector-clock happens-before relation (data races, predictive); no runnable thread = deadlock (RWMutex writer preference modelled); panics; C05 invariants and lock release asserted at quiescence. Handler level: the ARP and ICMPv6 spoof loops (started by StartHunt) against ProcessPacket, StartHunt / StopHunt / IsHunting / PrintTable and Close, every run ending with Close and no goroutine left blocked. DHCP handler ProcessPacket against MinuteTicker / PrintTable / StartHunt / StopHunt / Close and naming handler ProcessDNS against DNSFind / DNSExist / PrintDNSTable. PARTIAL: one operation per goroutine, small fixed scenarios per handler.",
          "Trusted: go/ssa, gse semantics incl. its model of sync (Mutex, RWMutex, WaitGroup, channels), z3. Races / deadlocks are reported only when the native replay (40 runs with real goroutines under the Go race detector / hang watchdog) confirms them; others are listed as unconfirmed.",
